@@ -237,11 +237,12 @@ int main(int argc, char ** argv)
       // two passes: branch signatures alone (reaches the deep cascades), then signatures together with the number of deviates
       // consumed - an accept/reject decision of a rejection sampler changes the count, not the branch, so only this pass puts
       // candidates on both sides of every acceptance boundary (a wrong envelope or charge in a rare beta branch moves it slightly)
-      ds = deep_steer(R.tape, seed, (stream0 << 24) + (1ULL << 23), thr, deep_events - deep_events / 3, 4, [&](const std::string & steer, size_t & d) {
+      const long pass2 = std::min(deep_events / 3, 1500000L); // (events of the second pass are the long ones: bounded in the thorough tier)
+      ds = deep_steer(R.tape, seed, (stream0 << 24) + (1ULL << 23), thr, deep_events - pass2, 4, [&](const std::string & steer, size_t & d) {
         d = R.one(steer);
         return R.last_sig;
       });
-      DeepSteerStats ds2 = deep_steer(R.tape, seed, (stream0 << 24) + (1ULL << 23) + 64, thr, deep_events / 3, 4, [&](const std::string & steer, size_t & d) {
+      DeepSteerStats ds2 = deep_steer(R.tape, seed, (stream0 << 24) + (1ULL << 23) + 64, thr, pass2, 4, [&](const std::string & steer, size_t & d) {
         d = R.one(steer);
         return R.last_sig * 1000003ull + (uint64_t)d;
       });
